@@ -17,6 +17,8 @@ weasyprint/css/validation/properties.py: functions whose body is a sequence of c
 (`elif` is recorded).  Every bound, keyword and flag is read from the source, so that an edit of a bound changes the
 generated table and re-checks the range theorems of Props/C07Numeric.lean.  A function outside the subset is listed
 as not mirrored.
+
+Also: the "one or two lengths" validators (border-spacing, border-*-radius) with the flags of their get_length call.
 """
 import ast
 
@@ -236,6 +238,84 @@ def ast_numeric_validators():
     return sorted(table), sorted(skipped)
 
 
+def _is_lengths_comprehension(node):
+    """`[get_length(token, …) for token in tokens]` -> (negative, percentage)"""
+    if not (isinstance(node, ast.ListComp) and len(node.generators) == 1):
+        return None
+    gen = node.generators[0]
+    if gen.ifs or not (isinstance(gen.target, ast.Name) and gen.target.id == 'token'
+                       and isinstance(gen.iter, ast.Name) and gen.iter.id == 'tokens'):
+        return None
+    return _get_length_flags(node.elt)
+
+
+def _is_len_eq(test, k):
+    return isinstance(test, ast.Compare) and len(test.ops) == 1 and isinstance(test.ops[0], ast.Eq) \
+        and isinstance(test.left, ast.Call) and isinstance(test.left.func, ast.Name) and test.left.func.id == 'len' \
+        and len(test.left.args) == 1 and isinstance(test.left.args[0], ast.Name) and test.left.args[0].id == 'lengths' \
+        and isinstance(test.comparators[0], ast.Constant) and test.comparators[0].value == k
+
+
+def length_list_flags(func):
+    """The shape of border_spacing / border_corner_radius:
+
+        lengths = [get_length(token, negative=…, percentage=…) for token in tokens]
+        if all(lengths):
+            if len(lengths) == 1: return (lengths[0], lengths[0])
+            elif len(lengths) == 2: return tuple(lengths)
+
+    -> (negative, percentage) or None"""
+    if [a.arg for a in func.args.args] != ['tokens']:
+        return None
+    body = [n for n in func.body if not (isinstance(n, ast.Expr) and isinstance(n.value, ast.Constant))]
+    if len(body) != 2 or not (isinstance(body[0], ast.Assign) and len(body[0].targets) == 1
+                              and isinstance(body[0].targets[0], ast.Name) and body[0].targets[0].id == 'lengths'):
+        return None
+    flags = _is_lengths_comprehension(body[0].value)
+    outer = body[1]
+    if flags is None or not (isinstance(outer, ast.If) and not outer.orelse and len(outer.body) == 1
+                             and isinstance(outer.test, ast.Call) and isinstance(outer.test.func, ast.Name)
+                             and outer.test.func.id == 'all' and len(outer.test.args) == 1
+                             and isinstance(outer.test.args[0], ast.Name) and outer.test.args[0].id == 'lengths'):
+        return None
+    one = outer.body[0]
+    if not (isinstance(one, ast.If) and _is_len_eq(one.test, 1) and len(one.body) == 1
+            and isinstance(one.body[0], ast.Return) and isinstance(one.body[0].value, ast.Tuple)
+            and len(one.body[0].value.elts) == 2 and len(one.orelse) == 1 and isinstance(one.orelse[0], ast.If)):
+        return None
+    two = one.orelse[0]
+    if not (_is_len_eq(two.test, 2) and not two.orelse and len(two.body) == 1 and isinstance(two.body[0], ast.Return)
+            and isinstance(two.body[0].value, ast.Call) and isinstance(two.body[0].value.func, ast.Name)
+            and two.body[0].value.func.id == 'tuple'):
+        return None
+    return flags
+
+
+def ast_length_list_validators():
+    """[(property, function, negative, percentage)] for the 'one or two lengths' validators."""
+    tree = parse(VALIDATORS_PY)
+    out = []
+    for node in tree.body:
+        if not isinstance(node, ast.FunctionDef):
+            continue
+        names, other = [], False
+        for dec in node.decorator_list:
+            if isinstance(dec, ast.Call) and isinstance(dec.func, ast.Name) and dec.func.id == 'property':
+                if dec.args and isinstance(dec.args[0], ast.Constant) and isinstance(dec.args[0].value, str):
+                    names.append(dec.args[0].value)
+                elif not dec.args:
+                    names.append(node.name.rstrip('_').replace('_', '-'))
+            else:
+                other = True
+        if not names or other:
+            continue
+        flags = length_list_flags(node)
+        if flags is not None:
+            for name in names:
+                out.append((name, node.name, flags[0], flags[1]))
+    return sorted(out)
+
+
 def _opt_int(v):
     return 'none' if v is None else f'some ({v})'
 
@@ -249,6 +329,7 @@ def _clause(c):
 
 def generate():
     table, skipped = ast_numeric_validators()
+    length_lists = ast_length_list_validators()
     if not table:
         raise ExtractionError('no numeric @single_token validator found in properties.py')
     rows = [f'({lean_str(name)}, {lean_str(fn)}, {lean_list([_clause(c) for c in clauses])})'
@@ -265,6 +346,10 @@ abbrev Clause := String × Option Int × List Int × List String × Bool × Bool
 /-- (property, validator function, clauses in source order) (AST), sorted by property. -/
 def numericValidators : List (String × String × List Clause) := {lean_list(rows)}
 
+/-- Validators of the shape "one or two lengths" (`lengths = [get_length(token, negative=…, percentage=…) for token in
+tokens]`, one length doubled, two kept): (property, function, negative, percentage) (AST), sorted by property. -/
+def lengthListValidators : List (String × String × Bool × Bool) := {lean_list([f"({lean_str(n)}, {lean_str(f)}, {'true' if a else 'false'}, {'true' if b else 'false'})" for n, f, a, b in length_lists])}
+
 /-- Numeric-looking `@single_token` validators outside the clause subset (not mirrored): (function, reason). -/
 def notMirrored : List (String × String) := {lean_list([f"({lean_str(f)}, {lean_str(w)})" for f, w in skipped])}
 
@@ -272,5 +357,6 @@ end Wp.Gen.NumericC07
 '''
     changed = write_if_changed('NumericC07', text)
     return {'name': 'NumericC07', 'changed': changed, 'source': 'ast', 'sha256_of_source_span': 'whole-file',
-            'entries': sum(len(c) for _, _, c in table), 'numeric_properties': len(table),
+            'entries': sum(len(c) for _, _, c in table) + len(length_lists), 'numeric_properties': len(table),
+            'length_list_properties': [n for n, _, _, _ in length_lists],
             'not_mirrored': [f for f, _ in skipped]}
